@@ -26,7 +26,7 @@ NOTES = {
  'C19-n1': 'harness crashed at first (exit 2) on an Interest for an unpublished name; deep (versioned) names added and the trace now ends/rejects there; caught since',
  'C19-n2': 'Nack reasons rotated (was 150 only); caught. The patch no longer applies to /repo HEAD since fix 9b84c25 rewrote the same lines of segment_fetcher.retry(); result from the run against the earlier HEAD',
  'C03-m1': 'caught. The patch no longer applies to /repo HEAD since fix dbebc9b changed the same lines of name_tree.satisfy(); result from the run against the earlier HEAD',
- 'C06-k2': 'not evaluated: the patch rewrites name_tree.InterestTreeNode.nack_interest and did not apply to /repo HEAD (changed by fixes 88265c7 / dbebc9b) when round 3 was evaluated',
+ 'C06-k2': 'the original patch did not apply to /repo HEAD (fixes 88265c7 / dbebc9b changed nack_interest); the same change rebased by hand (patch.diff; the agent\'s file is patch-original.diff) keeps the suite green, fails the demonstration, and is caught',
  'C02-k1': 'an application-level digest gate (legacy _on_interest), outside C02 (codec-level ranges/checkers) by our reading; caught by C05 (check-C05.txt) once empty ApplicationParameters were part of the gate templates',
  'C06-k1': 'the receive path raises only for an Interest that is addressed to an attached handler (not junk): missed by C06, caught by C05/C04 machinery (check-C05.txt) after unusual trailing name components were added to incoming Interests',
  'C19-k1': 'pack_uint_bytes mis-sizes only the number 65535 (segment 65535 of a 65536-segment object): out of reach for the C19 driver (<= 12 segments); caught by C09, whose boundary numbers include 65535 (check-C09.txt)',
